@@ -19,7 +19,8 @@ func CompileGlobs(globs []string) (*regexp.Regexp, error) {
 	// The alternation is grouped so that the anchors apply to every glob, not just to the
 	// first and the last one.
 	var pattern strings.Builder
-	pattern.WriteString("^(?:")
+	// (s: the dot that ? and ** compile to matches a line break as well)
+	pattern.WriteString("^(?s:")
 	for i, g := range globs {
 		if i > 0 {
 			pattern.WriteRune('|')
